@@ -10,8 +10,16 @@ VARIABLE l
 Ev == Rec[l]
 Is(e) == l <= Len(Rec) /\ Ev.e = e
 Adv == l' = l + 1
-RECURSIVE FileOf(_)
-FileOf(runs) == IF runs = <<>> THEN <<>> ELSE Rep(<<Head(runs)[1], Head(runs)[2]>>, Head(runs)[3]) \o FileOf(Tail(runs))
+\* the logged file is run-length encoded (<<thread, record, count>>); it is compared with the specification's disk
+\* by index, without building the expanded sequence (a long lifetime makes the file hundreds of units long)
+RECURSIVE MatchFrom(_, _, _, _)
+MatchFrom(runs, j, off, d) ==
+  IF j > Len(runs) THEN off = Len(d)
+  ELSE LET r == runs[j] IN
+       /\ off + r[3] <= Len(d)
+       /\ \A k \in 1..r[3] : d[off + k] = <<r[1], r[2]>>
+       /\ MatchFrom(runs, j + 1, off + r[3], d)
+SameFile(d, runs) == MatchFrom(runs, 1, 0, d)
 TInit == Init /\ l = 1
 TReset == /\ Is("reset") /\ Adv
           /\ disk' = (IF AppendMode THEN PreBytes ELSE <<>>) /\ buf' = <<>> /\ holder' = 0
@@ -28,8 +36,8 @@ TLock == /\ Is("lock") /\ Adv
                  /\ pc' = [pc EXCEPT ![h] = "idle", ![t] = "encode"]
                  /\ UNCHANGED <<disk, buf, cur, pos>>
 TChunk == Is("chunk") /\ Adv /\ pos[Ev.t] < Len(cur[Ev.t]) /\ cur[Ev.t][pos[Ev.t] + 1] = Ev.n /\ Encode(Ev.t)
-TEncoded == Is("encoded") /\ Adv /\ pos[Ev.t] = Len(cur[Ev.t]) /\ Encode(Ev.t) /\ disk = FileOf(Ev.file)
-TFlushed == Is("flushed") /\ Adv /\ Flush(Ev.t) /\ disk' = FileOf(Ev.file)
+TEncoded == Is("encoded") /\ Adv /\ pos[Ev.t] = Len(cur[Ev.t]) /\ Encode(Ev.t) /\ SameFile(disk, Ev.file)
+TFlushed == Is("flushed") /\ Adv /\ Flush(Ev.t) /\ SameFile(disk', Ev.file)
 TEnd == /\ Is("end") /\ Adv /\ Ev.ok
         /\ IF holder = Ev.t THEN Unlock(Ev.t) ELSE (pc[Ev.t] = "idle" /\ done[Ev.t] = Ev.i /\ UNCHANGED vars)
 \* a reader in the appending thread, after the call returned: the record must be whole in the file
